@@ -10,3 +10,6 @@ open XsVerif.Props.C17
 #print axioms setItem_counterexample
 #print axioms setItemRepaired_inv
 #print axioms delItem_inv
+#print axioms stack_discipline
+#print axioms subtree_restores
+#print axioms decoded_names_resolve
